@@ -12,7 +12,7 @@ import (
 // finders, the markup parsers and the two-pass logic. docspec = template id; the
 // members inside a template rotate with the PRNG of the docGen.
 
-const nRichDocs = 26
+const nRichDocs = 27
 
 func pagerHTML(g *docGen, style string, n, k int) string {
 	var sb strings.Builder
@@ -242,6 +242,10 @@ func richDoc(id int, g *docGen) string {
 			sb.WriteString(fmt.Sprintf(`<a href="/story/view?pg=%d">%d</a> `, n, n))
 		}
 		body.WriteString("<div>" + story(3) + "</div><div>" + sb.String() + "</div>")
+	case 25: // a two-part article: one plain number next to one numbered link (the detector fills in the page URL itself)
+		pg := g.pick(`<a href="/story/view?pg=1">1</a> 2`, `1 <a href="/story/view?pg=2">2</a>`, `<a href="/story/view/1">1</a> <b>2</b>`,
+			`<span>1</span> <a href="/story/view/2">2</a>`)
+		body.WriteString("<div>" + story(3) + "</div><div>" + pg + "</div>")
 	default: // a random abstract document through the doc-family concretiser
 		forest := randomForest(r, 14)
 		return g.page(forest, docPlaces[r.Intn(len(docPlaces))])
